@@ -1118,6 +1118,11 @@ def stale_loop_vars(v: FuncView):
             if isinstance(n, ast.Name) and isinstance(n.ctx, ast.Load) and n.id in bound and id(n) not in inside and n.lineno > end:
                 # re-bound after the loop before this use?
                 rebound = False
+                # the element expression of a comprehension that binds the name itself (the comprehension's own scope), whatever
+                # the line layout
+                for comp in v.enclosing_all(n, (ast.ListComp, ast.SetComp, ast.DictComp, ast.GeneratorExp)):
+                    if any(isinstance(x, ast.Name) and x.id == n.id for g_ in comp.generators for x in ast.walk(g_.target)):
+                        rebound = True
                 for m in walk_no_nested(v.fi.node):
                     if isinstance(m, ast.Name) and isinstance(m.ctx, ast.Store) and m.id == n.id and id(m) not in inside and end < m.lineno <= n.lineno:
                         # comprehension / for target or assignment after the loop re-binds the name
